@@ -74,8 +74,7 @@ def _gen_shards(tier):
         cfgs += [{"slots": 2, "body": 2, "blocks": 1, "first": "watch", "in1_mode": "up"}]
     else:
         cfgs += [{"slots": 2, "body": 2, "blocks": 2, "first": "watch", "in1_mode": "up"}]
-        cfgs += [{"slots": 2, "body": 2, "blocks": 2, "first": "block", "in1_mode": "up"}]
-        cfgs += [{"slots": 3, "body": 2, "blocks": 1, "first": "mark", "in1_mode": "up"}]
+        cfgs += [{"slots": 2, "body": 2, "blocks": 1, "first": "block", "in1_mode": "up"}]
     return [dict(c, pre=[p0, p1]) for c in cfgs for p0 in range(7) for p1 in range(7)]
 
 
@@ -100,7 +99,7 @@ _ENC = ["openpectus.lang.exec.pinterpreter:PInterpreter.visit_WatchNode", "openp
 _GENERATED = Obligation(
     name="generated_methods", kind="crosshair", harness=harness_generated, shards=_gen_shards, cpu_budget={"quick": 400.0, "thorough": 3000.0}, encoded=_ENC[:6],
     symbolic="the kind of every item of the method, Watch or Alarm, the shape of its body (selectors); the tick at which the condition becomes true (it stays true)",
-    bounds={"quick": "first item the Watch / Alarm, 2 top-level items, at most one block", "thorough": "Watch / Alarm first, inside a first Block, or anywhere among 3 top-level items; at most 2 blocks"},
+    bounds={"quick": "first item the Watch / Alarm, 2 top-level items, at most one block", "thorough": "Watch / Alarm first (at most 2 blocks) or inside / behind a first Block (one block)"},
     assumptions=["liveness is judged for a Watch / Alarm at the root only (its scope never ends): body ran once within 10 ticks, the Alarm body twice within 18 ticks, counted from the later of 'condition true' and 'method finished'",
                  "tick interval fixed; fake hardware; log statements removed at import"])
 
